@@ -384,6 +384,14 @@ def eventV1_eventV1_calculatedStickyEndTime : List String := [
   "return startTime.Add(time.Duration(durationMillis) * time.Millisecond)"
 ]
 
+def eventV1_type_eventV1 : List String := [
+  "type eventV1 struct { redacted bool eventJSON []byte roomVersion RoomVersion eventFields EventIDRaw string `json:\"event_id,omitempty\"` PrevEvents []eventReference `json:\"prev_events\"` AuthEvents []eventReference `json:\"auth_events\"` UnstableSticky stickyEventData `json:\"msc4354_sticky,omitempty\"` StableSticky stickyEventData `json:\"sticky,omitempty\"` }"
+]
+
+def eventV1_type_stickyEventData : List String := [
+  "type stickyEventData struct { DurationMillis int64 `json:\"duration_ms\"` }"
+]
+
 def eventV2__CheckFields : List String := [
   "func func(input PDU) error",
   "if input.AuthEventIDs() == nil || input.PrevEventIDs() == nil {",
@@ -637,6 +645,10 @@ def eventV2_eventV2_populateEventID : List String := [
   "return nil"
 ]
 
+def eventV2_type_eventV2 : List String := [
+  "type eventV2 struct { eventV1 PrevEvents []string `json:\"prev_events\"` AuthEvents []string `json:\"auth_events\"` }"
+]
+
 def eventV3__checkRoomID : List String := [
   "func func(res *eventV3) error",
   "isCreateEvent := res.Type() == spec.MRoomCreate && res.StateKeyEquals(\"\")",
@@ -790,6 +802,10 @@ def eventV3_eventV3_SetUnsigned : List String := [
 def eventV3_eventV3_Sign : List String := [
   "func func(signingName string, keyID KeyID, privateKey ed25519.PrivateKey) PDU",
   "return &eventV3{eventV2: *e.eventV2.Sign(signingName, keyID, privateKey).(*eventV2)}"
+]
+
+def eventV3_type_eventV3 : List String := [
+  "type eventV3 struct{ eventV2 }"
 ]
 
 def event_EventValidationError_Error : List String := [
@@ -1015,6 +1031,10 @@ def event_builder__toEventReference : List String := [
   "return refs"
 ]
 
+def event_builder_type_EventBuilder : List String := [
+  "type EventBuilder struct { SenderID string `json:\"sender\"` RoomID string `json:\"room_id,omitempty\"` Type string `json:\"type\"` StateKey *string `json:\"state_key,omitempty\"` PrevEvents interface{} `json:\"prev_events\"` AuthEvents interface{} `json:\"auth_events\"` Redacts string `json:\"redacts,omitempty\"` Depth int64 `json:\"depth\"` Signature spec.RawJSON `json:\"signatures,omitempty\"` Content spec.RawJSON `json:\"content\"` Unsigned spec.RawJSON `json:\"unsigned,omitempty\"` version IRoomVersion }"
+]
+
 def event_jsonWalk_duplicateName : List String := [
   "func func(data []byte) (name string, found bool, err error)",
   "var stack []map[string]struct{}",
@@ -1083,6 +1103,18 @@ def event_jsonWalk_duplicateName : List String := [
   "}",
   "}",
   "return \"\", false, nil"
+]
+
+def event_type_EventValidationError : List String := [
+  "type EventValidationError struct { Message string Code int Persistable bool }"
+]
+
+def event_type_eventFields : List String := [
+  "type eventFields struct { RoomID string `json:\"room_id\"` SenderID string `json:\"sender\"` Type string `json:\"type\"` StateKey *string `json:\"state_key\"` Content spec.RawJSON `json:\"content\"` Redacts string `json:\"redacts\"` Depth int64 `json:\"depth\"` Unsigned spec.RawJSON `json:\"unsigned,omitempty\"` OriginServerTS spec.Timestamp `json:\"origin_server_ts\"` }"
+]
+
+def event_type_jsonWalk : List String := [
+  "type jsonWalk struct { decodeName func(raw []byte, escaped bool) (string, bool) checkString func(raw []byte) error skipMember func(name string) bool }"
 ]
 
 def eventcrypto__VerifyAllEventSignatures : List String := [
@@ -1493,6 +1525,18 @@ def pdu_eventReference_UnmarshalJSON : List String := [
   "return nil"
 ]
 
-def functions : List String := ["eventV1.go:.newEventFromTrustedJSONV1", "eventV1.go:.newEventFromTrustedJSONWithEventIDV1", "eventV1.go:.newEventFromUntrustedJSONV1", "eventV1.go:.signableEventJSON", "eventV1.go:eventV1.AuthEventIDs", "eventV1.go:eventV1.Content", "eventV1.go:eventV1.Depth", "eventV1.go:eventV1.EventID", "eventV1.go:eventV1.HistoryVisibility", "eventV1.go:eventV1.IsSticky", "eventV1.go:eventV1.JSON", "eventV1.go:eventV1.JoinRule", "eventV1.go:eventV1.MarshalJSON", "eventV1.go:eventV1.Membership", "eventV1.go:eventV1.OriginServerTS", "eventV1.go:eventV1.PowerLevels", "eventV1.go:eventV1.PrevEventIDs", "eventV1.go:eventV1.Redact", "eventV1.go:eventV1.Redacted", "eventV1.go:eventV1.Redacts", "eventV1.go:eventV1.RoomID", "eventV1.go:eventV1.SenderID", "eventV1.go:eventV1.SetUnsigned", "eventV1.go:eventV1.SetUnsignedField", "eventV1.go:eventV1.Sign", "eventV1.go:eventV1.StateKey", "eventV1.go:eventV1.StateKeyEquals", "eventV1.go:eventV1.StickyEndTime", "eventV1.go:eventV1.ToHeaderedJSON", "eventV1.go:eventV1.Type", "eventV1.go:eventV1.Unsigned", "eventV1.go:eventV1.Version", "eventV1.go:eventV1.assumedStickyStartTime", "eventV1.go:eventV1.calculatedStickyEndTime", "eventV2.go:.CheckFields", "eventV2.go:.newEventFromTrustedJSONV2", "eventV2.go:.newEventFromTrustedJSONWithEventIDV2", "eventV2.go:.newEventFromUntrustedJSONV2", "eventV2.go:eventV2.AuthEventIDs", "eventV2.go:eventV2.EventID", "eventV2.go:eventV2.MarshalJSON", "eventV2.go:eventV2.PrevEventIDs", "eventV2.go:eventV2.Redact", "eventV2.go:eventV2.SenderID", "eventV2.go:eventV2.SetUnsigned", "eventV2.go:eventV2.Sign", "eventV2.go:eventV2.populateEventID", "eventV3.go:.checkRoomID", "eventV3.go:.newEventFromTrustedJSONV3", "eventV3.go:.newEventFromTrustedJSONWithEventIDV3", "eventV3.go:.newEventFromUntrustedJSONV3", "eventV3.go:eventV3.AuthEventIDs", "eventV3.go:eventV3.RoomID", "eventV3.go:eventV3.SetUnsigned", "eventV3.go:eventV3.Sign", "event.go:EventValidationError.Error", "event.go:.SplitID", "event.go:.checkID", "event.go:.checkRoomIDField", "event.go:.checkUntrustedEventJSON", "event.go:.duplicateJSONKey", "event.go:.jsonFieldNames", "event_builder.go:EventBuilder.AddAuthEvents", "event_builder.go:EventBuilder.Build", "event_builder.go:EventBuilder.SetContent", "event_builder.go:EventBuilder.SetUnsigned", "event_builder.go:.eventHashFromEventID", "event_builder.go:.eventReferenceFromEventID", "event_builder.go:.eventReferencesFrom", "event_builder.go:.toEventReference", "event.go:jsonWalk.duplicateName", "eventcrypto.go:.VerifyAllEventSignatures", "eventcrypto.go:.VerifyEventSignatures", "eventcrypto.go:.addContentHashesToEvent", "eventcrypto.go:.checkEventContentHash", "eventcrypto.go:.emptyAuthorisedViaServerName", "eventcrypto.go:.extractAuthorisedViaServerName", "eventcrypto.go:.getMXIDMapping", "eventcrypto.go:.membershipForSignatures", "eventcrypto.go:.referenceOfEvent", "eventcrypto.go:.referenceOfEventForVersion", "eventcrypto.go:.signEvent", "eventcrypto.go:.validateMXIDMappingSignatures", "json.go:.CanonicalJSON", "json.go:.CanonicalJSONAssumeValid", "json.go:.EnforcedCanonicalJSON", "json.go:.verifyEnforcedCanonicalJSON", "pdu.go:.ToPDUs", "pdu.go:eventReference.MarshalJSON", "pdu.go:eventReference.UnmarshalJSON"]
+def pdu_type_PDU : List String := [
+  "type PDU interface { EventID() string StateKey() *string StateKeyEquals(s string) bool Type() string Content() []byte JoinRule() (string, error) HistoryVisibility() (HistoryVisibility, error) Membership() (string, error) PowerLevels() (*PowerLevelContent, error) Version() RoomVersion RoomID() spec.RoomID Redacts() string Redacted() bool PrevEventIDs() []string OriginServerTS() spec.Timestamp Redact() SenderID() spec.SenderID Unsigned() []byte SetUnsigned(unsigned interface{}) (PDU, error) SetUnsignedField(path string, value interface{}) error Sign(signingName string, keyID KeyID, privateKey ed25519.PrivateKey) PDU Depth() int64 JSON() []byte AuthEventIDs() []string ToHeaderedJSON() ([]byte, error) IsSticky(now time.Time, received time.Time) bool StickyEndTime(received time.Time) time.Time }"
+]
+
+def pdu_type_StateKeyTuple : List String := [
+  "type StateKeyTuple struct { EventType string StateKey string }"
+]
+
+def pdu_type_eventReference : List String := [
+  "type eventReference struct { EventID string EventSHA256 spec.Base64Bytes }"
+]
+
+def functions : List String := ["eventV1.go:.newEventFromTrustedJSONV1", "eventV1.go:.newEventFromTrustedJSONWithEventIDV1", "eventV1.go:.newEventFromUntrustedJSONV1", "eventV1.go:.signableEventJSON", "eventV1.go:eventV1.AuthEventIDs", "eventV1.go:eventV1.Content", "eventV1.go:eventV1.Depth", "eventV1.go:eventV1.EventID", "eventV1.go:eventV1.HistoryVisibility", "eventV1.go:eventV1.IsSticky", "eventV1.go:eventV1.JSON", "eventV1.go:eventV1.JoinRule", "eventV1.go:eventV1.MarshalJSON", "eventV1.go:eventV1.Membership", "eventV1.go:eventV1.OriginServerTS", "eventV1.go:eventV1.PowerLevels", "eventV1.go:eventV1.PrevEventIDs", "eventV1.go:eventV1.Redact", "eventV1.go:eventV1.Redacted", "eventV1.go:eventV1.Redacts", "eventV1.go:eventV1.RoomID", "eventV1.go:eventV1.SenderID", "eventV1.go:eventV1.SetUnsigned", "eventV1.go:eventV1.SetUnsignedField", "eventV1.go:eventV1.Sign", "eventV1.go:eventV1.StateKey", "eventV1.go:eventV1.StateKeyEquals", "eventV1.go:eventV1.StickyEndTime", "eventV1.go:eventV1.ToHeaderedJSON", "eventV1.go:eventV1.Type", "eventV1.go:eventV1.Unsigned", "eventV1.go:eventV1.Version", "eventV1.go:eventV1.assumedStickyStartTime", "eventV1.go:eventV1.calculatedStickyEndTime", "eventV1.go:type eventV1", "eventV1.go:type stickyEventData", "eventV2.go:.CheckFields", "eventV2.go:.newEventFromTrustedJSONV2", "eventV2.go:.newEventFromTrustedJSONWithEventIDV2", "eventV2.go:.newEventFromUntrustedJSONV2", "eventV2.go:eventV2.AuthEventIDs", "eventV2.go:eventV2.EventID", "eventV2.go:eventV2.MarshalJSON", "eventV2.go:eventV2.PrevEventIDs", "eventV2.go:eventV2.Redact", "eventV2.go:eventV2.SenderID", "eventV2.go:eventV2.SetUnsigned", "eventV2.go:eventV2.Sign", "eventV2.go:eventV2.populateEventID", "eventV2.go:type eventV2", "eventV3.go:.checkRoomID", "eventV3.go:.newEventFromTrustedJSONV3", "eventV3.go:.newEventFromTrustedJSONWithEventIDV3", "eventV3.go:.newEventFromUntrustedJSONV3", "eventV3.go:eventV3.AuthEventIDs", "eventV3.go:eventV3.RoomID", "eventV3.go:eventV3.SetUnsigned", "eventV3.go:eventV3.Sign", "eventV3.go:type eventV3", "event.go:EventValidationError.Error", "event.go:.SplitID", "event.go:.checkID", "event.go:.checkRoomIDField", "event.go:.checkUntrustedEventJSON", "event.go:.duplicateJSONKey", "event.go:.jsonFieldNames", "event_builder.go:EventBuilder.AddAuthEvents", "event_builder.go:EventBuilder.Build", "event_builder.go:EventBuilder.SetContent", "event_builder.go:EventBuilder.SetUnsigned", "event_builder.go:.eventHashFromEventID", "event_builder.go:.eventReferenceFromEventID", "event_builder.go:.eventReferencesFrom", "event_builder.go:.toEventReference", "event_builder.go:type EventBuilder", "event.go:jsonWalk.duplicateName", "event.go:type EventValidationError", "event.go:type eventFields", "event.go:type jsonWalk", "eventcrypto.go:.VerifyAllEventSignatures", "eventcrypto.go:.VerifyEventSignatures", "eventcrypto.go:.addContentHashesToEvent", "eventcrypto.go:.checkEventContentHash", "eventcrypto.go:.emptyAuthorisedViaServerName", "eventcrypto.go:.extractAuthorisedViaServerName", "eventcrypto.go:.getMXIDMapping", "eventcrypto.go:.membershipForSignatures", "eventcrypto.go:.referenceOfEvent", "eventcrypto.go:.referenceOfEventForVersion", "eventcrypto.go:.signEvent", "eventcrypto.go:.validateMXIDMappingSignatures", "json.go:.CanonicalJSON", "json.go:.CanonicalJSONAssumeValid", "json.go:.EnforcedCanonicalJSON", "json.go:.verifyEnforcedCanonicalJSON", "pdu.go:.ToPDUs", "pdu.go:eventReference.MarshalJSON", "pdu.go:eventReference.UnmarshalJSON", "pdu.go:type PDU", "pdu.go:type StateKeyTuple", "pdu.go:type eventReference"]
 
 end VPins.C03
